@@ -961,6 +961,24 @@ def consent_vc(S, prefix='consent'):
 
 
 
+def clock_wiring_vc(S, prefix='empty/clock-wiring'):
+    """the clock trash-empty compares DeletionDate values with is LOCAL time
+    (datetime.now): DeletionDate is written as local time by trash-put"""
+    def body(V):
+        c = wire(V, 'trashcli.empty.main', 'trashcli.empty.empty_cmd',
+                 'EmptyCmd.run_cmd')
+        dm = c['self'].attrs['empty_action'].attrs['emptier'].attrs['delete_mode']
+        clock = dm.attrs['clock']
+        rn = clock.attrs.get('real_now')
+        from pyvc.values import BoundMethod, StaticM, Builtin
+        f = rn.func if isinstance(rn, (BoundMethod, StaticM)) else rn
+        V.ctx.oblige(prefix + '/the-real-clock-is-local-time-datetime-now',
+                     z3.BoolVal(isinstance(f, Builtin) and f.name == 'datetime.now'),
+                     info={'clock': repr(rn)})
+        V.ctx.cover(prefix + '/cover-end')
+    S.run_paths(prefix, body)
+
+
 def leaf_vcs(S):
     """verify the body of every contract the purge VCs rely on (a change
     inside a callee is noticed only by the callee's own VC)"""
@@ -980,6 +998,7 @@ def leaf_vcs(S):
     S.verify(dates.ParseDeletionDate())
     S.verify(dates.MaybeParseDeletionDate())
     S.verify(dates.ClockNow())
+    clock_wiring_vc(S)
     deps = [dates.ParseDeletionDate(), dates.ClockNow(), dates.OlderThan()]
     S.install(deps)
     S.verify(OkToDelete(), active=[c.key for c in deps])
